@@ -135,6 +135,15 @@ Definition tw_add (with_sm : bool) (t : token) (from : Z * Z) (st : est) : est :
     else st
   end.
 
+(** the recurring pair "write a fragment, record where it went" *)
+Definition tw_write_add (with_sm : bool) (s : bytes) (t : token) (st : est) : est :=
+  tw_add with_sm t (fst (tw_write s st)) (snd (tw_write s st)).
+Definition tw_write_indent_add (with_sm : bool) (s : bytes) (t : token) (st : est) : est :=
+  tw_add with_sm t (fst (tw_write_indent s st)) (snd (tw_write_indent s st)).
+
+Definition var_name_of (st : est) : bytes := fst (get_var_name st).
+Definition after_var (st : est) : est := snd (get_var_name st).
+
 Definition fail_with (msg : bytes) (st : est) : est :=
   let w := fst st in
   match w_err w with
@@ -169,15 +178,12 @@ Definition write_formatted_text (sm : bool) (t : token) (st : est) : est :=
   match fmt_text_match (t_lit t) with
   | Some (verb, expr) =>
     let st1 := tw_wr (lit "goht.FormatString(""") st in
-    let '(r1, st2) := tw_write verb st1 in
-    let st3 := tw_add sm (mkTok TDynamicText verb (t_line t) (t_col t)) r1 st2 in
+    let st3 := tw_write_add sm verb (mkTok TDynamicText verb (t_line t) (t_col t)) st1 in
     let st4 := tw_wr (lit """, ") st3 in
-    let '(r2, st5) := tw_write expr st4 in
     let col2 := (t_col t + Z.of_nat (List.length (t_lit t)) - Z.of_nat (List.length expr))%Z in
-    let st6 := tw_add sm (mkTok TDynamicText expr (t_line t) col2) r2 st5 in
+    let st6 := tw_write_add sm expr (mkTok TDynamicText expr (t_line t) col2) st4 in
     tw_wr (lit ")") st6
-  | None =>
-    let '(r, st1) := tw_write (t_lit t) st in tw_add sm t r st1
+  | None => tw_write_add sm (t_lit t) t st
   end.
 
 (** strings.TrimSpace *)
@@ -248,7 +254,8 @@ Variable sm : bool.   (* Compose (true) or Generate (false) *)
 
 (** the dynamic-text / script pattern shared by TextNode (dynamic) and ScriptNode *)
 Definition emit_dynamic (origin : token) (st : est) : est :=
-  let '(v, st1) := get_var_name st in
+  let v := var_name_of st in
+  let st1 := after_var st in
   let st2 := tw_wri (lit "var " ++ v ++ lit " string" ++ [10]) st1 in
   let st3 := tw_wri (lit "if " ++ v ++ lit ", __err = goht.CaptureErrors(") st2 in
   let unesc := wl_unesc (snd st3) in
@@ -303,7 +310,7 @@ Fixpoint write_class_args (l : list token) (st : est) : est :=
     let st1 :=
         match t_typ c with
         | TObjectRef => tw_wr (lit "goht.ObjectClass(" ++ t_lit c ++ lit ")") st
-        | TAttrDynamicValue => let '(r, s1) := tw_write (t_lit c) st in tw_add sm c r s1
+        | TAttrDynamicValue => tw_write_add sm (t_lit c) c st
         | TClass => tw_wr (go_quote (t_lit c)) st
         | _ => tw_wr (t_lit c) st
         end in
@@ -324,7 +331,8 @@ Definition render_class (classes : list token) (st : est) : est :=
           (chunk_class (join (lit " ") (class_names classes))) st
       end
     else
-      let '(v, st1) := get_var_name st in
+      let v := var_name_of st in
+      let st1 := after_var st in
       let st2 := tw_wri (lit "var " ++ v ++ lit " string" ++ [10]) st1 in
       let st3 := tw_wri (v ++ lit ", __err = goht.BuildClassList(") st2 in
       let st4 := write_class_args classes st3 in
@@ -343,8 +351,7 @@ Fixpoint render_attrs (l : list (bytes * attribute)) (st : est) : est :=
         | _ =>
           if a_bool a then
             let st1 := tw_wri (lit "if ") st in
-            let '(r, st2) := tw_write (a_value a) st1 in
-            let st3 := tw_add sm (a_origin a) r st2 in
+            let st3 := tw_write_add sm (a_value a) (a_origin a) st1 in
             let st4 := tw_wr (lit " {" ++ [10]) st3 in
             let outer := snd st4 in
             let st5 := tw_write_string_literal (chunk_attr_name (a_name a)) (set_local st4 (indent_local outer 1)) in
@@ -366,10 +373,10 @@ Definition render_attributes (d : elem) (st : est) : est :=
   let st1 :=
       match e_objref d with
       | Some o =>
-        let '(v, s1) := get_var_name st in
+        let v := var_name_of st in
+        let s1 := after_var st in
         let s2 := tw_wri (lit "if " ++ v ++ lit " := goht.ObjectID(") s1 in
-        let '(r, s3) := tw_write (t_lit o) s2 in
-        let s4 := tw_add sm o r s3 in
+        let s4 := tw_write_add sm (t_lit o) o s2 in
         let s5 := tw_wr (lit "); " ++ v ++ lit " != """" {" ++ [10]) s4 in
         let s6 := tw_wri ([9] ++ write_string_open ++ lit """ id=\""""+" ++ v ++ lit "+""\""""); __err != nil { return }" ++ [10]) s5 in
         tw_wri (lit "}" ++ [10]) s6
@@ -390,7 +397,8 @@ Definition render_attributes (d : elem) (st : est) : est :=
   match e_attrs_cmd d with
   | [] => st4
   | cmd =>
-    let '(v, s1) := get_var_name st4 in
+    let v := var_name_of st4 in
+    let s1 := after_var st4 in
     let s2 := tw_wri (lit "var " ++ v ++ lit " string" ++ [10]) s1 in
     let s3 := tw_wri (v ++ lit ", __err = goht.BuildAttributeList(" ++ cmd ++ lit ")" ++ [10]) s2 in
     let s4 := tw_write_error_handler s3 in
@@ -398,22 +406,15 @@ Definition render_attributes (d : elem) (st : est) : est :=
   end.
 
 (** [emit_node n next needs_close st]: Source of [n]; [next] is n.nextSibling, [needs_close] the
-    flag a preceding silent script may have set on [n]; returns the flag for the next sibling. *)
-Fixpoint emit_node (n : node) (next : option node) (needs_close : bool) (st : est) : est * bool :=
-  match n with
-  | Node k children =>
-    let emit_children :=
-        fix go (l : list node) (nc : bool) (st : est) : est :=
-          match l with
-          | [] => st
-          | c :: rest => let '(st', nc') := emit_node c (hd_error rest) nc st in go rest nc' st'
-          end in
+    flag a preceding silent script may have set on [n]; returns the flag for the next sibling.
+    [emit_node_body] is the Source method proper, given the function that emits a list of children. *)
+Definition emit_node_body (emit_children : list node -> bool -> est -> est)
+           (k : nkind) (children : list node) (next : option node) (needs_close : bool) (st : est) : est * bool :=
     match k with
     | KRoot pkg user =>
       let st1 := tw_wr c_header st in
       let st2 := tw_wr (lit "package ") st1 in
-      let '(r, st3) := tw_write (t_lit pkg) st2 in
-      let st4 := if Z.ltb 0 (t_line pkg) then tw_add sm pkg r st3 else st3 in
+      let st4 := if Z.ltb 0 (t_line pkg) then tw_write_add sm (t_lit pkg) pkg st2 else tw_wr (t_lit pkg) st2 in
       let st5 := tw_wr [10; 10] st4 in
       let st6 := fold_left (fun s i => tw_wr (lit "import " ++ i ++ [10]) s) c_rootImports st5 in
       let st7 :=
@@ -422,21 +423,17 @@ Fixpoint emit_node (n : node) (next : option node) (needs_close : bool) (st : es
           | _ =>
             let s1 := tw_wr (lit "import (" ++ [10]) st6 in
             let outer := snd s1 in
-            let s2 := fold_left (fun s (i : token) =>
-                                   let '(r, s') := tw_write_indent (t_lit i) s in
-                                   tw_wr [10] (tw_add sm i r s'))
+            let s2 := fold_left (fun s (i : token) => tw_wr [10] (tw_write_indent_add sm (t_lit i) i s))
                                 user (set_local s1 (indent_local outer 1)) in
             tw_wr (lit ")" ++ [10]) (set_local s2 outer)
           end in
       (emit_children children false st7, false)
     | KCode toks =>
       (fold_left (fun s (t : token) =>
-                    let '(r, s') := tw_write (t_lit t) s in
-                    if toktype_eqb (t_typ t) TNewLine then s' else tw_add sm t r s') toks st, false)
+                    if toktype_eqb (t_typ t) TNewLine then tw_wr (t_lit t) s else tw_write_add sm (t_lit t) t s) toks st, false)
     | KGoht origin =>
       let st1 := tw_wr (lit "func ") (reset_var_name st) in
-      let '(r, st2) := tw_write (t_lit origin) st1 in
-      let st3 := tw_add sm origin r st2 in
+      let st3 := tw_write_add sm (t_lit origin) origin st1 in
       let st4 := tw_wr c_gohtEntry st3 in
       let outer := snd st4 in
       let st5 := emit_children children false (set_local st4 (indent_local outer 2)) in
@@ -478,8 +475,7 @@ Fixpoint emit_node (n : node) (next : option node) (needs_close : bool) (st : es
       let end_ := if has_children && is_opening && negb (has_suffix (lit "{") code)
                   then lit " {" ++ [10] else [10] in
       let st1 := tw_wri start st in
-      let '(r, st2) := tw_write code st1 in
-      let st3 := tw_add sm origin r st2 in
+      let st3 := tw_write_add sm code origin st1 in
       let st4 := tw_wr end_ st3 in
       if negb has_children then (st4, false)
       else
@@ -500,11 +496,11 @@ Fixpoint emit_node (n : node) (next : option node) (needs_close : bool) (st : es
       match children with
       | [] =>
         let st1 := tw_wri (lit "if __err = ") st in
-        let '(r, st2) := tw_write (t_lit origin) st1 in
-        let st3 := tw_add sm origin r st2 in
+        let st3 := tw_write_add sm (t_lit origin) origin st1 in
         (tw_wr (lit ".Render(ctx, __buf); __err != nil { return }" ++ [10]) st3, false)
       | _ =>
-        let '(v, st1) := get_var_name st in
+        let v := var_name_of st in
+        let st1 := after_var st in
         let st2 := tw_wri (v ++ lit " := goht.TemplateFunc(func(ctx context.Context, __w io.Writer) (__err error) {" ++ [10]) st1 in
         let outer := snd st2 in
         let st3 := fold_left (fun s line => tw_wri line s) render_body_pre (set_local st2 (indent_local outer 1)) in
@@ -512,8 +508,7 @@ Fixpoint emit_node (n : node) (next : option node) (needs_close : bool) (st : es
         let st5 := set_local (tw_close st4) outer in
         let st6 := fold_left (fun s line => tw_wri line s) render_body_post st5 in
         let st7 := tw_wri (lit "if __err = ") st6 in
-        let '(r, st8) := tw_write (t_lit origin) st7 in
-        let st9 := tw_add sm origin r st8 in
+        let st9 := tw_write_add sm (t_lit origin) origin st7 in
         (tw_wr (lit ".Render(goht.PushChildren(ctx, " ++ v ++ lit "), __buf); __err != nil { return }" ++ [10]) st9, false)
       end
     | KChildren _ =>
@@ -531,7 +526,25 @@ Fixpoint emit_node (n : node) (next : option node) (needs_close : bool) (st : es
       let st3 := if beqb (t_lit origin) (lit "preserve") then tw_write_string_literal (lit "\n") st2 else st2 in
       (* the deferred reset runs on return, after the last write *)
       (if unescaped then set_unesc false st3 else st3, false)
-    end
+    end.
+
+Fixpoint emit_node (n : node) (next : option node) (needs_close : bool) (st : est) : est * bool :=
+  match n with
+  | Node k children =>
+    emit_node_body
+      (fix go (l : list node) (nc : bool) (st : est) : est :=
+         match l with
+         | [] => st
+         | c :: rest => let '(st', nc') := emit_node c (hd_error rest) nc st in go rest nc' st'
+         end)
+      k children next needs_close st
+  end.
+
+(** the children loop as a function of its own *)
+Fixpoint emit_list (l : list node) (nc : bool) (st : est) : est :=
+  match l with
+  | [] => st
+  | c :: rest => let '(st', nc') := emit_node c (hd_error rest) nc st in emit_list rest nc' st'
   end.
 
 Definition emit_tree (root : node) : wshared := fst (fst (emit_node root None false (ws_init, wl_init))).
